@@ -124,15 +124,18 @@ func runC08(c *core.Ctx) {
 		fn := fc.read
 		c.FuncsSeen[p.QName(fn)] = true
 		recv := fn.Params[0]
-		var maxF *types.Var
-		for _, f := range fieldsOfNamed(fc.t) {
-			if strings.Contains(strings.ToLower(f.Name()), "max") {
-				maxF = f
-			}
-		}
+		// the bound must be configuration: a load of an int field of the codec (possibly converted)
 		isMax := func(m ssa.Value) bool {
 			f, _ := core.FieldOf(stripConv(m))
-			return f != nil && f == maxF
+			if f == nil || !isIntT(f.Type()) {
+				return false
+			}
+			for _, cf := range fieldsOfNamed(fc.t) {
+				if cf == f {
+					return true
+				}
+			}
+			return false
 		}
 		core.AllInstrs(fn, func(in ssa.Instruction) {
 			var sink ssa.Value
@@ -361,11 +364,16 @@ func runC08(c *core.Ctx) {
 				}
 				c.Check(t == nil, "R3", "loop-consumes/"+fc.t.Obj().Name(), p.InstrPos(start), "every iteration performs a read of the source whose error is guarded", "a decoder loop can iterate without a checked read of the source (spins at end-of-stream)", p.PathString(path, t)...)
 				// bounded by the configured maximum: the loop condition involves a max field
-				var maxF *types.Var
-				for _, f := range fieldsOfNamed(fc.t) {
-					if strings.Contains(strings.ToLower(f.Name()), "max") {
-						maxF = f
+				isCfgInt := func(f *types.Var) bool {
+					if f == nil || !isIntT(f.Type()) {
+						return false
 					}
+					for _, cf := range fieldsOfNamed(fc.t) {
+						if cf == f {
+							return true
+						}
+					}
+					return false
 				}
 				bounded := false
 				for _, ifi := range core.Ifs(fn) {
@@ -379,7 +387,7 @@ func runC08(c *core.Ctx) {
 								continue
 							}
 							// the bound is the configured maximum itself, not maximum plus something
-							if f, _ := core.FieldOf(stripConv(side[1])); f == maxF && maxF != nil {
+							if f, _ := core.FieldOf(stripConv(side[1])); isCfgInt(f) {
 								if _, isLoad := stripConv(side[1]).(*ssa.UnOp); isLoad {
 									bounded = true
 								}
